@@ -57,8 +57,8 @@ def cross_check(constraints, label):
     if not CROSS["every"]:
         return
     CROSS["seen"] += 1
-    if CROSS["seen"] % CROSS["every"] or CROSS["n"] >= CROSS["cap"]:
-        return
+    if (CROSS["seen"] > 2 and CROSS["seen"] % CROSS["every"]) or CROSS["n"] >= CROSS["cap"]:
+        return  # (the first two solver-decided obligations of a cell are always re-checked, then every N-th)
     import subprocess
     import tempfile
 
